@@ -112,6 +112,9 @@ type c14Client struct {
 	confirmed bool // reference: Confirmed seen and no NegativeConf since
 	negSeen   bool // a NegativeConf was delivered earlier
 	done      bool
+	// finalAtReg: at registration the including block was already at the
+	// reorg safety limit; lnd does not track such a request, no Done follows.
+	finalAtReg bool
 }
 
 // c14World is the notifier under test plus the reference model.
@@ -220,6 +223,9 @@ func (w *c14World) register(numConfs uint32, inclBlk bool, hint uint32) {
 	w.clients = append(w.clients, c)
 	vAssert(reg.Height == w.tip(), "registration reports a height that is not the tip")
 	incl := w.incl()
+	if incl != 0 {
+		c.finalAtReg = w.h0+uint32(incl)+w.limit <= w.tip()
+	}
 	if d := reg.HistoricalDispatch; d != nil {
 		vReach("historical-rescan")
 		vAssert(d.EndHeight == w.tip(), "historical rescan does not end at the tip")
@@ -347,7 +353,7 @@ func (w *c14World) check(c *c14Client, kind int, disconnectedIncl bool) {
 		vAssert(nDone == 1 && mature && !c.done, "Done delivered although the including block is not exactly at the reorg safety limit")
 		c.done = true
 	} else {
-		vAssert(c.done || !mature, "including block reached the reorg safety limit but Done was not delivered")
+		vAssert(c.done || c.finalAtReg || !mature, "including block reached the reorg safety limit but Done was not delivered")
 	}
 }
 
